@@ -195,7 +195,30 @@ class Objects:
         raise EngineError("defaultdict outside the subset")
 
     def set_union(self, ex, st, s, args, node):
-        raise EngineError("set.union outside the subset")
+        """set().union(*X) for a sequence X of integer sequences: e is a member iff some X[j][p] equals e.
+        The size is an unspecified natural number, positive iff there is a member; zero when X is empty
+        (only the empty receiver set is supported)."""
+        from .libspec import Star
+        if not (isinstance(s.size, int) and s.size == 0) or len(args) != 1 or not isinstance(args[0], Star):
+            raise EngineError("%s:L%d: set.union other than set().union(*sequences) outside the subset" % (ex.fnname, node.lineno))
+        X = ex.as_seq(args[0].value, st)
+        if ex.bound_stack:
+            raise EngineError("set.union under a bound variable")
+        mem = z3.Function(uid("inunion"), I, B)
+        wj = z3.Function(uid("unionwit_j"), I, I)
+        wp = z3.Function(uid("unionwit_p"), I, I)
+        k, j, p = bvar("k"), bvar("j"), bvar("p")
+        n = to_z3(X.n)
+        inner_w = ex.as_seq(X.at(wj(k)), st)
+        st.assume(z3.ForAll([k], mem(k) == z3.And(wj(k) >= 0, wj(k) < n, wp(k) >= 0, wp(k) < to_z3(inner_w.n),
+                                                  to_z3(as_int(inner_w.at(wp(k)))) == k), patterns=[mem(k)]))
+        inner_j = ex.as_seq(X.at(j), st)
+        st.assume(z3.ForAll([j, p], z3.Implies(z3.And(j >= 0, j < n, p >= 0, p < to_z3(inner_j.n)),
+                                               mem(to_z3(as_int(inner_j.at(p)))))))
+        size = z3.Int(uid("setsize"))
+        wit0 = z3.Int(uid("member0"))
+        st.assume(size >= 0, z3.Implies(size >= 1, mem(wit0)), z3.ForAll([k], z3.Implies(mem(k), size >= 1), patterns=[mem(k)]))
+        return SetV(lambda kk: mem(to_z3(as_int(kk))), size, "int")
 
     def flatten(self, ex, st, s, start, node):
         """sum(seq-of-lists, []) where every inner list has the same concrete length w:
